@@ -7,6 +7,12 @@
 (*   InRange   the range filter used for replication candidates            *)
 (*   Closest   Node::calculate_get_closest_peers (count and/or range)      *)
 (*   Candidates SwarmDriver::get_replicate_candidates on a real node       *)
+(*   Conv      convert_distance_to_u256 on a crafted real Distance: the    *)
+(*             distance between the address with digest a and the          *)
+(*             key-space point b                                           *)
+(* Results are compared as DIGESTS (a peer set may contain a peer twice:   *)
+(* two entries, one digest); for sets without repetition that is the same  *)
+(* as comparing entry numbers.                                             *)
 (* with the SHA-256 digests of the address bytes computed by the driver.   *)
 (***************************************************************************)
 EXTENDS Distance, TLC, Json, IOUtils
@@ -18,24 +24,40 @@ vars == <<l, viol>>
 
 Peers(e) == [i \in 1..Len(e.peers) |-> e.peers[i]]
 When(cond, name) == IF cond THEN {name} ELSE {}
+\* every reported entry number is one of the entries handed in
+ValidOut(e) == \A i \in 1..Len(e.out) : e.out[i] \in 1..Len(e.peers)
+DigSeq(e, ids) == [i \in 1..Len(ids) |-> e.peers[ids[i]]]
+DigSet(e, S) == {e.peers[p] : p \in S}
+OutSet(e) == {e.out[i] : i \in 1..Len(e.out)}
+\* calculate_get_closest_peers returns (address, multiaddrs) pairs: every returned pair is one of the entries handed in
+\* -- the peer together with ITS OWN multiaddrs, all of them, in order -- and no entry is returned twice
+\* (odig[j]: digest of the j-th returned address; oaddr[j]: the entries its multiaddrs were made for; naddr[i]: how
+\*  many multiaddrs entry i was given)
+OwnEntry(e, j, i) == e.peers[i] = e.odig[j] /\ e.oaddr[j] = [k \in 1..e.naddr[i] |-> i]
+ClosestEntriesOk(e) ==
+    /\ Len(e.odig) = Len(e.out) /\ Len(e.oaddr) = Len(e.out)
+    /\ \A j \in 1..Len(e.odig) : \E i \in 1..Len(e.peers) : OwnEntry(e, j, i)
+    /\ \A j1, j2 \in 1..Len(e.oaddr) : (j1 # j2 /\ Len(e.oaddr[j1]) > 0 /\ Len(e.oaddr[j2]) > 0) => e.oaddr[j1][1] # e.oaddr[j2][1]
 Falsified(e) ==
     CASE e.ev = "Dist" ->
             LET d == Dist(e.a, e.b) IN
                When(e.ab # d \/ e.ba # d, "C11_Metric")                           \* value and symmetry
           \cup When((d = Zero) # e.same, "C11_Metric")                              \* zero only for equal addresses
-          \cup When(e.abRaw # d, "C11_FormIndependent")
+          \cup When(e.abRaw # d \/ e.abMixed # d, "C11_FormIndependent")          \* raw/raw and typed/raw, peers included
       [] e.ev = "Sort" ->
             LET want == Take(SortedIds(e.target, Peers(e)), e.n) IN
-               When(Len(e.peers) >= CloseGroupSize /\ (e.res # "Ok" \/ e.out # want), "C11_ClosestCount")
+               When(Len(e.peers) >= CloseGroupSize /\ (e.res # "Ok" \/ ~ValidOut(e) \/ DigSeq(e, e.out) # DigSeq(e, want)
+                                                       \/ Cardinality(OutSet(e)) # Len(e.out)), "C11_ClosestCount")
           \cup When(Len(e.peers) < CloseGroupSize /\ e.res # "NotEnoughPeers", "C11_ClosestCount")
       [] e.ev = "InRange" ->
-               When({e.out[i] : i \in 1..Len(e.out)} # InRangeIds(e.target, Peers(e), e.range), "C11_OrderAgrees")
+               When(~ValidOut(e) \/ DigSet(e, OutSet(e)) # DigSet(e, InRangeIds(e.target, Peers(e), e.range)), "C11_OrderAgrees")
       [] e.ev = "Closest" ->
             LET want == IF e.hasRange THEN InRangeIds(e.target, Peers(e), e.range)
                         ELSE IF e.hasN THEN {x \in DOMAIN Peers(e) : \E i \in 1..Len(Take(SortedIds(e.target, Peers(e)), e.n)) : Take(SortedIds(e.target, Peers(e)), e.n)[i] = x}
                         ELSE {}
-            IN When({e.out[i] : i \in 1..Len(e.out)} # want, "C11_OrderAgrees")
-          \cup When(~e.hasRange /\ e.hasN /\ e.out # Take(SortedIds(e.target, Peers(e)), e.n), "C11_ClosestCount")
+            IN When(~ValidOut(e) \/ DigSet(e, OutSet(e)) # DigSet(e, want), "C11_OrderAgrees")
+          \cup When(~e.hasRange /\ e.hasN /\ (~ValidOut(e) \/ DigSeq(e, e.out) # DigSeq(e, Take(SortedIds(e.target, Peers(e)), e.n))), "C11_ClosestCount")
+          \cup When(~ClosestEntriesOk(e), "C11_ClosestEntries")
       \* replication candidates of a real node: the peers within the responsible range when those are at least a close
       \* group, else the CloseGroupSize closest -- in both cases decided and ordered by the metric
       [] e.ev = "Candidates" ->
@@ -44,6 +66,8 @@ Falsified(e) ==
             IF e.hasRange /\ Cardinality(inr) >= CloseGroupSize
             THEN When(outset # inr, "C11_OrderAgrees")
             ELSE When(e.out # Take(SortedIds(e.target, Peers(e)), CloseGroupSize), "C11_ClosestCount")
+      \* the conversion of a crafted distance (0, 1, 2^255, 2^256-1, leading zero bytes, powers of ten ...)
+      [] e.ev = "Conv" -> When(e.ab # Dist(e.a, e.b), "C11_Metric")
       [] OTHER -> {"Malformed"}
 
 Init == l = 1 /\ viol = {}
